@@ -108,6 +108,7 @@ type FS struct {
 	TeardownGate *vs.Sem // the next ConnClosed or FidDestroy call made for a disconnecting connection parks here (a slow clean-up in the implementation)
 	CancelAuthIO bool    // FlushOp cancels reads / writes on authentication fids too
 	AuthReadGate *vs.Sem // the next AuthRead call parks here (an authentication protocol waiting for the other side)
+	Iounit       uint32 // what Open and Create advertise as the iounit (an implementation may name its own block size, whatever the connection negotiated)
 	ErrKind      string // what kind of error value the auth callbacks return: "" (*go9p.Error), "plain" (errors.New), "errno" (syscall.Errno), "wrapped" (fmt.Errorf with %w)
 	ErrAll       map[string]string // op name -> error (implementation failure injection)
 	destroyed    map[int]int       // token -> times destroyed
@@ -364,7 +365,7 @@ func (fs *FS) Open(req *go9p.SrvReq) {
 	}
 	q := x.node.qid()
 	fs.resp(req, fmt.Sprintf("Ropen %v", q))
-	req.RespondRopen(&q, 0)
+	req.RespondRopen(&q, fs.Iounit)
 	if a.Twice {
 		fs.fail(req, "second answer")
 	}
@@ -399,7 +400,7 @@ func (fs *FS) Create(req *go9p.SrvReq) {
 	x.node = n
 	q := n.qid()
 	fs.resp(req, fmt.Sprintf("Rcreate %v", q))
-	req.RespondRcreate(&q, 0)
+	req.RespondRcreate(&q, fs.Iounit)
 	if a.Twice {
 		fs.fail(req, "second answer")
 	}
